@@ -2,7 +2,7 @@
 From Coq Require Import String ZArith List Bool Reals QArith.
 From XV Require Import Base.Scalar Base.Sum Base.Mat Base.RInst Model.Eof Model.Cpcca Model.Eeof Model.Whiten Gen.T5cpcca
   Proofs.C01_proofs Proofs.C10_proofs Proofs.C10_real Proofs.C16_proofs
-  Base.Hom Base.CInst Proofs.Hom_eof Proofs.Hom_cpcca Gen.T5eeof Proofs.Eeof_tie.
+  Base.Hom Base.CInst Proofs.Hom_eof Proofs.Hom_cpcca Gen.T5eeof Proofs.Eeof_tie Gen.T8fwd Proofs.Fwd_tie.
 From Coquelicot Require Import Complex.
 Import ListNotations.
 
@@ -105,3 +105,16 @@ Theorem C10_eeof_matches_source :
    eeof_inner_eof_follows_center_only = true /\ eeof_pca_scores_are_embedded = true).
 Proof. exact (conj embed_rows_matches_source (conj embed_row_matches_source eeof_shape_flags)). Qed.
 Print Assumptions C10_eeof_matches_source.
+
+(* the named methods hand every constructor parameter to the general method under its own name; the only keywords they pin are the
+   whitening degrees (regenerated from the constructors of all model classes, Gen/T8fwd.v) *)
+Theorem C10_named_methods_forward_their_parameters :
+  forallb (fun r => how_ok (snd r)) ctor_special = true /\
+  filter (fun r => prefix "pinned:" (snd r)) ctor_special =
+  [("CCA", "CPCCA.__init__", "alpha", "pinned:[0.0, 0.0]"); ("ComplexCCA", "ComplexCPCCA.__init__", "alpha", "pinned:[0.0, 0.0]");
+   ("HilbertCCA", "HilbertCPCCA.__init__", "alpha", "pinned:[0.0, 0.0]"); ("CPCCA", "super().__init__", "center", "pinned:True");
+   ("MCA", "CPCCA.__init__", "alpha", "pinned:[1.0, 1.0]"); ("ComplexMCA", "ComplexCPCCA.__init__", "alpha", "pinned:[1.0, 1.0]");
+   ("HilbertMCA", "HilbertCPCCA.__init__", "alpha", "pinned:[1.0, 1.0]"); ("RDA", "CPCCA.__init__", "alpha", "pinned:[0.0, 1.0]");
+   ("ComplexRDA", "ComplexCPCCA.__init__", "alpha", "pinned:[0.0, 1.0]"); ("HilbertRDA", "HilbertCPCCA.__init__", "alpha", "pinned:[0.0, 1.0]")]%string.
+Proof. exact (conj ctor_nothing_dropped_or_replaced ctor_pinned_known). Qed.
+Print Assumptions C10_named_methods_forward_their_parameters.
